@@ -13,7 +13,7 @@ Real code (run over harness.fakecourier, virtual clock):
                  and after acquisition) as the capacity/liveness oracle.
   family 'sched': the same real Worker / WorkerPool / WorkerRegistry objects (and the real CourierServer._heartbeat
                  handler) with several pool threads and environment threads (die / revive / heartbeat sends / late or
-                 failed deliveries / clock ticks) under the DETERMINISTIC SCHEDULER (harness/sched/shim.py, machinery in
+                 failed deliveries / clock ticks / the real CourierClient.shutdown of a worker's client) under the DETERMINISTIC SCHEDULER (harness/sched/shim.py, machinery in
                  harness/lib_owner.py): pre-emption at every operation of `_states_lock`, `_lock` (incl. `locked()`),
                  `WorkerRegistry._lock` and at every read / write of `Worker._worker_pool`; every executed operation
                  label, the enabled thread set before every step, the registry contents before every step and all
@@ -273,6 +273,8 @@ def rand_sched_env_op(rng, nworkers):
     return dict(op='send', w=w, alive=rng.random() < 0.5)
   if r < 0.85:
     return dict(op='deliver', k=rng.randrange(3), fail=rng.random() < 0.2)
+  if r < 0.91:               # (round 6) the worker's client is shut down: CourierClient.shutdown, not under _states_lock
+    return dict(op='shutdown', w=w)
   return dict(op='tick', d=rng.choice([0, 1, 31, 60, 99, 100, 200]))
 
 
@@ -399,7 +401,7 @@ def _gen_cases(ctx):
   # --- sched (after the older families, whose random streams are thereby unchanged): real threads under the deterministic scheduler, replayed on the LTS
   for _ in range(1500 if quick else 30000):
     yield rand_sched(rng)
-  for _ in range(300 if quick else 6000):
+  for _ in range(150 if quick else 4000):      # (round 6: largely subsumed by family schedc below; kept as an oracle-only cross-check)
     yield rand_schedrun(rng)
   # --- live, server life-cycle (round 6; no PRNG use): after a delivered shutdown every sequence of <= 3 (4 thorough) of
   # restart / kill / shutdown / deliver / call / alive, closed by a call, deliveries, a registration and is_alive: the
@@ -412,7 +414,7 @@ def _gen_cases(ctx):
                       [dict(op='call', i=0), dict(op='deliver', k=0, fail=False), dict(op='deliver', k=0, fail=False),
                        dict(op='reg', a=0, t=990), dict(op='alive', i=0)])
   # --- schedc (round 6): run / call_and_wait step by step under the scheduler
-  for _ in range(380 if quick else 8000):
+  for _ in range(330 if quick else 8000):
     yield rand_schedc(rng)
 
 
@@ -686,7 +688,8 @@ PROGRAM_POINTS = [
     # round 6: program points of the composite operations (controller of Model/OwnerEnv.lean)
     'c.start.run', 'c.start.caw', 'c.rTick', 'c.rCond', 'c.rCond.err', 'c.rAlive.ret', 'c.rAlive.sleep', 'c.rNext',
     'c.rClockN.timeout', 'c.rClockN.submit', 'c.rClockN.again', 'c.rSub.wait', 'c.rSub.sleepAlive', 'c.rSub.disconnected',
-    'c.rSub.sleepCap', 'c.cAcq', 'c.cWait', 'r.strAcq', 'r.strRel', 'e.deliver.taskRaise']
+    'c.rSub.sleepCap', 'c.cAcq', 'c.cWait', 'r.strAcq', 'r.strRel', 'e.deliver.taskRaise',
+    'e.shutdown', 'e.deliver.cancelled', 'e.deliver.shutdown']
 _SCHEDULES = set()
 
 
@@ -834,7 +837,7 @@ def oracle_sched(case, obs):
         info = obs['opinfo'].get(f'{tid},{oi}') if th['kind'] == 'env' and op['op'] in ('deliver', 'send') else None
         hb = info if (info and info['method'] == 'heartbeat' and info['sender'] == w and not info['fail']) else None
         registers = th['kind'] == 'env' and ((op['op'] == 'revive' and op['w'] == w) or (hb is not None and hb['alive']))
-        unregisters = th['kind'] == 'env' and ((op['op'] == 'die' and op['w'] == w) or (hb is not None and not hb['alive']))
+        unregisters = th['kind'] == 'env' and ((op['op'] in ('die', 'shutdown') and op['w'] == w) or (hb is not None and not hb['alive']))
         if rb == 'absent':
           return f'{where}: the registry forgot worker {w}'
         if ra is None and not registers:
@@ -1134,6 +1137,10 @@ COVER_CONFIGS = [
                   dict(kind='env', ops=[dict(op='send', w=0, alive=True), dict(op='send', w=1, alive=False),
                                         dict(op='deliver', k=1, fail=False), dict(op='deliver', k=0, fail=False),
                                         dict(op='deliver', k=0, fail=False), dict(op='deliver', k=0, fail=False)])]),
+    # round 6: CourierClient.shutdown racing with is_alive / has_capacity / call of pool threads
+    dict(nworkers=1, pw=[[0], [0]], thr=100, now=1000, reg0=['alive'],
+         threads=[dict(kind='pool', ops=[dict(op='call', p=0, w=0), dict(op='next_idle', p=0, ws=[0], acq=True)]),
+                  dict(kind='env', ops=[dict(op='shutdown', w=0), dict(op='deliver', k=0, fail=False), dict(op='deliver', k=0, fail=False)])]),
     # round 6: composite operations (fam 'schedc'): every program point of the controller
     dict(nworkers=1, pw=[[0], [0]], thr=100, now=1000, reg0=['alive'], mp=[1],
          threads=[dict(kind='pool', ops=[dict(op='run', p=0, task='ok')]),
